@@ -13,7 +13,7 @@ HOOKS = dict(
     add_only=True,
 )
 
-CHECKS_IDS = ["C01", "C02", "C05", "C06", "C07", "C11", "C13", "C16"]
+CHECKS_IDS = ["C01", "C02", "C05", "C06", "C07", "C11", "C12", "C13", "C16"]
 
 ENGINES = [
     dict(name="mc", path="/verif/mc",
@@ -100,6 +100,19 @@ CHECKS = {
         note="Real MOSEK is not installed: the MOSEK side is the stand-in (records the task, solves it through CLARABEL, "
              "answers in MOSEK's documented conventions, self-checks MOSEK's dual equations). Bounded by the grammar.",
     ),
+    "C12": dict(
+        category="model_checking",
+        technique="exhaustive enumeration of process histories (sequences of previous programs) up to length 2 (3) before "
+                  "each observed program, each executed in a forked pristine interpreter; byte-exact comparison of the "
+                  "solver input with a fresh-interpreter run",
+        text="For each of 10 observed programs and every history over a 14-letter alphabet of previous programs (solved, "
+             "solved twice, heuristic, MOSEK path, abandoned, unbounded, raising half-way, evaluating module-level null "
+             "objects) the exact solver input of the observed program (sha256 of the stuffed cone program handed to "
+             "CLARABEL / of the stand-in's MOSEK call log), the names of the objects sent and the returned value are "
+             "compared with the same program run first in a fresh interpreter; verbosity 0/1/2.",
+        note="Bound: histories of length <= 2 (quick) / 3 (thorough). Each history runs in its own forked process so that a "
+             "violation replays from its file. Assumes cvxpy canonicalisation and CLARABEL are deterministic.",
+    ),
     "C13": dict(
         category="model_checking",
         technique="explicit enumeration of all solve / edit / evaluate / solver-answer sequences <= 3 (4) on four base models; "
@@ -131,5 +144,5 @@ CHECKS = {
 
 _PENDING = "check not built yet in this session (planned, see DESIGN.md section 4); not claimed until it has run clean and caught a mutant"
 NOT_APPLICABLE = {k: _PENDING for k in
-                  ["C03", "C04", "C05", "C08", "C09", "C10", "C12", "C14", "C15",
+                  ["C03", "C04", "C05", "C08", "C09", "C10", "C14", "C15",
                    "C17"]}
